@@ -235,7 +235,8 @@ func genTagVal(t *rapid.T, label string) string {
 		// a small pool of common values: different keys (and injected vs existing items) often carry the same value
 		return rapid.SampledFrom([]string{"name", "required", "-", "a"}).Draw(t, label+"Common")
 	case 0:
-		return rapid.SampledFrom([]string{"name,omitempty", "bytes,1,opt,name=name,proto3", "required,to=1~3", "to=1~10|cost in $USD", "$1", "${x}", "$$", "re='\\d+'|必须为纯数字", "a\\b", "-", "50%", "100%s %d", "required|see @tag doc", "to=1~3|the @tag marker"}).Draw(t, label+"Fixed")
+		return rapid.SampledFrom([]string{"name,omitempty", "bytes,1,opt,name=name,proto3", "required,to=1~3", "to=1~10|cost in $USD", "$1", "${x}", "$$", "re='\\d+'|必须为纯数字", "a\\b", "-", "50%", "100%s %d", "required|see @tag doc", "to=1~3|the @tag marker",
+			"to=1~3|长度：1～3", "in=(a/b)|“a”或“b”", "required|邮箱＠公司", "required|姓名　必填", "eq=5|＂五＂"}).Draw(t, label+"Fixed") // (full-width and typographic characters are characters like any other)
 	default:
 		n := rapid.IntRange(1, 10).Draw(t, label+"Len")
 		var b strings.Builder
@@ -247,7 +248,7 @@ func genTagVal(t *rapid.T, label string) string {
 }
 
 var fieldTypes = []string{"string", "int32", "int64", "bool", "[]string", "map[string]int32", "*Other", "[]*Other", "float64", "[]byte", "protoimpl.MessageState", "func(a string) error", "chan int", "interface{}", "struct{}"}
-var prosePool = []string{"nolint:lll // ", "export E ", "go:generate stringer ", "line x.go:1 ", "todo:1 later ", "", "", "姓名 ", "name of the thing ", "年龄, 单位: 岁 ", "see `code` ", "a // b ", "é😀 ", "100% sure ", "valid:\"x\" is not injected here "}
+var prosePool = []string{"nolint:lll // ", "export E ", "go:generate stringer ", "line x.go:1 ", "todo:1 later ", "", "", "姓名 ", "name of the thing ", "年龄, 单位: 岁 ", "see `code` ", "a // b ", "é😀 ", "100% sure ", "valid:\"x\" is not injected here ", "＠tag valid:\"look-alike marker\" "}
 
 func genSrcField(t *rapid.T, idx int, allowNoTagAnnotated bool) SrcField {
 	f := SrcField{Names: fmt.Sprintf("F%d", idx), Type: rapid.SampledFrom(fieldTypes).Draw(t, "ftype")}
